@@ -8,3 +8,14 @@ Theorem C08_old_publish_refuted :
   exists (sp : sparams) pq pr,
     to_delivery_old pq pr (mkE (sp_rap sp) (sp_qos sp) []) <> to_delivery pq pr (mkE (sp_rap sp) (sp_qos sp) []).
 Proof. exists (mkSP 0 false false 0 0), 2, true. vm_compute. discriminate. Qed.
+
+(* overlappingSubscribers before the repair: No Local was looked at only while the session had no copy yet - a No-Local
+   subscription met after another subscription of the session was merged into the copy of the session's OWN publish
+   (here it raises the copy's QoS from 0 to 2 and adds its identifier) *)
+From VMQ Require Import proofs.DeliverProofs.
+Theorem C08_overlap_no_local_as_it_was_refuted :
+  exists a b, sp_nl b = true /\
+    collect_merge_old true [a; b] None = Some (mkE (sp_rap a) (N.max (sp_qos a) (sp_qos b)) (ids_of a ++ ids_of b))
+    /\ (sp_qos a <? sp_qos b) = true.
+Proof. exact merge_old_refuted. Qed.
+Print Assumptions C08_overlap_no_local_as_it_was_refuted.
